@@ -225,6 +225,11 @@ pub fn run_cases(args: &Args, mut res: SubResult, total: usize, timeout: Duratio
         for r in &args.rest {
             cmd.arg(r);
         }
+        // the worker's stderr is kept: how a worker died decides between "the code under test crashed"
+        // and "the harness process ran out of a resource"
+        if let Ok(f) = std::fs::File::create(dir.join(format!("w{k}.err"))) {
+            cmd.stderr(f);
+        }
         let child = cmd.spawn().unwrap_or_else(|e| {
             eprintln!("spawn worker: {e}");
             std::process::exit(2)
@@ -263,6 +268,17 @@ pub fn run_cases(args: &Args, mut res: SubResult, total: usize, timeout: Duratio
         };
         if !status.success() {
             use std::os::unix::process::ExitStatusExt;
+            let err_txt = std::fs::read_to_string(out.with_extension("err")).unwrap_or_default();
+            let tail: String = err_txt.chars().rev().take(3000).collect::<Vec<_>>().into_iter().rev().collect();
+            if !tail.trim().is_empty() {
+                eprintln!("{tail}");
+            }
+            if status.signal().is_some() && ["failed to initiate panic", "failed to spawn thread", "Cannot allocate memory", "Resource temporarily unavailable", "failed to allocate an alternative stack"].iter().any(|m| tail.contains(m)) {
+                // the exploring process itself ran out of threads / memory (e.g. threads of torn-down
+                // executions that could not be reaped): a failure of the machinery, not an observation
+                eprintln!("MACHINERY: a worker of {} died of resource exhaustion in the harness process", args.subcheck);
+                std::process::exit(2);
+            }
             if let Some(sig) = status.signal() {
                 // the subject killed the worker (segfault / abort): that is an observation about the
                 // code under test, reported as a violation of the case that was running; the cases
